@@ -268,6 +268,7 @@ def run(ctx):
     texts, dist = gens_ws.ws_texts(ctx.rng, n)
     texts = common.corpus('filters_ws') + texts
     res = {'disagreements': [], 'failures': []}
+    res['failures'] += common.threshold_failures('C10', ctx.quick())
     shapes = set()
     per_stage = {}
     for stage, _ in STAGES:
@@ -295,7 +296,7 @@ def run(ctx):
         if k in GRAMMAR_KINDS and len(t) <= 1500:
             gtexts.append(t)
     kinds = sweep(gtexts)
-    res['failures'] = _pick_failures(kinds)
+    res['failures'] += _pick_failures(kinds)
     res.update({
         'evaluations': len(texts) * (len(STAGES) + 2),
         'distinct_nontrivial': len(shapes),
@@ -522,6 +523,9 @@ def shrink(f):
 
 
 def replay(payload):
+    _f = payload.get('failure') or {}
+    if _f.get('threshold_input'):
+        return common.threshold_replay('C10', _f)
     f = payload.get('failure')
     if not f or 'input' not in f:
         return {'fails': False, 'note': 'no concrete input in replay file: ' + str(payload.get('no_longer_checks'))}
